@@ -133,3 +133,68 @@ Section AnyObserver.
     run_inv x' outs acts.
   Proof. intros H. exact (run_inv_all acts remuxer_init o [] [] x' o' outs run_inv_init H). Qed.
 End AnyObserver.
+
+Section AnyObserver2.
+  Variable O : Type.
+  Variable obs_decide : O -> tsev -> bool.
+  Variable obs_apply : O -> tsev -> list tsev -> O.
+  Variable obs_patpmt : O -> bytes -> O.
+
+  Lemma run_actions_app : forall a b x o,
+    run_actions O obs_decide obs_apply obs_patpmt x o (a ++ b)
+    = let '(x1, o1, e1) := run_actions O obs_decide obs_apply obs_patpmt x o a in
+      let '(x2, o2, e2) := run_actions O obs_decide obs_apply obs_patpmt x1 o1 b in
+      (x2, o2, e1 ++ e2).
+  Proof.
+    induction a as [|h t IH]; intros b x o; cbn [app run_actions].
+    - destruct (run_actions _ _ _ _ x o b) as [[x2 o2] e2]. reflexivity.
+    - destruct (match h with
+                | AMsg m => feed_rtmp_message O obs_decide obs_apply obs_patpmt x o m
+                | AFlush => remuxer_flush O obs_decide obs_apply x o
+                | ADispose => remuxer_dispose O obs_decide obs_apply x o
+                end) as [[x1 o1] e1].
+      rewrite IH. destruct (run_actions _ _ _ _ x1 o1 t) as [[x2 o2] e2].
+      destruct (run_actions _ _ _ _ x2 o2 b) as [[x3 o3] e3]. now rewrite app_assoc.
+  Qed.
+
+  (* Dispose at the end: every published AAC frame is in a PES *)
+  Theorem run_audio_complete acts o x' o' outs :
+    run_actions O obs_decide obs_apply obs_patpmt remuxer_init o (acts ++ [ADispose]) = (x', o', outs) ->
+    fq_done (x_filter x') = true -> Forall aac_only (msgs_of acts) ->
+    exists groups,
+      snd (aac_walk (msgs_of acts)) = concat groups
+      /\ map (fun e => f_raw (te_frame e)) (audio_evs (ts_events outs)) = map render groups
+      /\ map te_dts0 (audio_evs (ts_events outs)) = map group_dts groups
+      /\ Forall (fun x => x <> []) groups.
+  Proof.
+    rewrite run_actions_app.
+    destruct (run_actions O obs_decide obs_apply obs_patpmt remuxer_init o acts) as [[x1 o1] e1] eqn:E1.
+    cbn [run_actions]. unfold remuxer_dispose, remuxer_flush.
+    pose proof (flush_audio_is_flushed O obs_decide obs_apply (x_core x1) o1) as Hp.
+    destruct (flush_audio O obs_decide obs_apply (x_core x1) o1) as [[s2 o2] evs2].
+    intros H Hdone Ho. injection H as <- <- <-. cbn [x_filter] in Hdone.
+    destruct (run_invariant O obs_decide obs_apply obs_patpmt acts o x1 o1 e1 E1) as (_ & Hb & _).
+    specialize (Hb Ho). unfold popped in Hb. rewrite Hdone in Hb.
+    rewrite app_nil_r, ts_events_app, ts_events_map.
+    eapply batched_flushed_complete; eassumption.
+  Qed.
+End AnyObserver2.
+
+(* time stamps of a whole run: per track, relative to the first frame of the track *)
+Definition track_evs (audio : bool) (evs : list tsev) : list tsev :=
+  filter (if audio then is_audio_ev else is_video_ev) evs.
+
+Lemma chained_track s evs audio : chained s evs -> chain max_u64 0 (track_evs audio evs).
+Proof. intros ((Ha & _) & (Hv & _) & _). destruct audio; assumption. Qed.
+
+Lemma track_times audio s evs e0 rest e :
+  chained s evs -> track_evs audio evs = e0 :: rest -> te_dts0 e0 <> max_u64 -> In e (e0 :: rest) ->
+  f_dts (te_frame e) = (if te_dts0 e <? te_dts0 e0 then te_dts0 e else te_dts0 e - te_dts0 e0)
+  /\ f_pts (te_frame e) = u64 (f_dts (te_frame e) + 90 * te_cts e).
+Proof.
+  intros Hc Ht Hb Hin. pose proof (chained_track s evs audio Hc) as Hch. rewrite Ht in Hch.
+  destruct Hin as [<-|Hin].
+  - destruct (chain_first_base _ _ _ Hch) as (H0 & _). cbn [chain] in Hch. destruct Hch as (_ & _ & _ & Hp & _).
+    split; [|exact Hp]. rewrite H0, N.ltb_irrefl. lia.
+  - destruct (chain_first_base _ _ _ Hch) as (_ & Hr). exact (chain_times rest _ _ e Hr Hb Hin).
+Qed.
